@@ -667,7 +667,8 @@ class CylcWorkflowDAO:
             FROM
                 {self.TABLE_WORKFLOW_FLOWS}
         '''  # nosec B608 (table name is code constant)
-        return self.connect().execute(stmt).fetchone()[0]
+        # (MAX of an empty table is NULL: no flows yet)
+        return self.connect().execute(stmt).fetchone()[0] or 0
 
     def select_workflow_params_restart_count(self):
         """Return number of restarts in workflow_params table."""
